@@ -3,29 +3,31 @@
 #include "exh.h"
 
 enum { K_EDIT, K_UNDO, K_W, K_MOVE, K_E, K_EALT, K_BNUM, K_BPLUS, K_BMINUS, K_BCUR, K_BALT, K_BDEL, K_BRENUM, K_EXT };
-static const struct { const char *name, *bytes; int kind; const char *arg; int num; } ops[] = {
-	{"e f1", "e f1\n", K_E, "f1", 0},
-	{"e f2", "e f2\n", K_E, "f2", 0},
-	{"e f3", "e f3\n", K_E, "f3", 0},
-	{"e #", "e #\n", K_EALT, NULL, 0},
-	{"b 1", "b 1\n", K_BNUM, NULL, 1},
-	{"b 2", "b 2\n", K_BNUM, NULL, 2},
-	{"b 3", "b 3\n", K_BNUM, NULL, 3},
-	{"b +", "b +\n", K_BPLUS, NULL, 0},
-	{"b -", "b -\n", K_BMINUS, NULL, 0},
-	{"b #", "b #\n", K_BALT, NULL, 0},
-	{"1d", "1d\n", K_EDIT, NULL, 0},
-	{"$a|x|.", "$a\nx\n.\n", K_EDIT, NULL, 0},
-	{"u", "u\n", K_UNDO, NULL, 0},
-	{"w", "w\n", K_W, NULL, 0},
-	{"2", "2\n", K_MOVE, NULL, 0},
-	{"b %", "b %\n", K_BCUR, NULL, 0},
-	{"b ~", "b ~\n", K_BRENUM, NULL, 0},
-	{"b !", "b !\n", K_BDEL, NULL, 0},
-	{"external-change f2", "", K_EXT, "f2", 0},
-	{"e f4", "e f4\n", K_E, "f4", 0},
-	{"b 4", "b 4\n", K_BNUM, NULL, 4},
+/* vikeys: the same operation typed in vi mode (the shortcuts ^^ zj zk zD where they exist) */
+static const struct { const char *name, *bytes; int kind; const char *arg; int num; const char *vikeys; } ops[] = {
+	{"e f1", "e f1\n", K_E, "f1", 0, ":e f1\n"},
+	{"e f2", "e f2\n", K_E, "f2", 0, ":e f2\n"},
+	{"e f3", "e f3\n", K_E, "f3", 0, ":e f3\n"},
+	{"e #", "e #\n", K_EALT, NULL, 0, "\x1e"},
+	{"b 1", "b 1\n", K_BNUM, NULL, 1, ":b 1\n"},
+	{"b 2", "b 2\n", K_BNUM, NULL, 2, ":b 2\n"},
+	{"b 3", "b 3\n", K_BNUM, NULL, 3, ":b 3\n"},
+	{"b +", "b +\n", K_BPLUS, NULL, 0, "zj"},
+	{"b -", "b -\n", K_BMINUS, NULL, 0, "zk"},
+	{"b #", "b #\n", K_BALT, NULL, 0, ":b #\n"},
+	{"1d", "1d\n", K_EDIT, NULL, 0, "1Gdd"},
+	{"$a|x|.", "$a\nx\n.\n", K_EDIT, NULL, 0, "Gox\x1b"},
+	{"u", "u\n", K_UNDO, NULL, 0, "u"},
+	{"w", "w\n", K_W, NULL, 0, ":w\n"},
+	{"2", "2\n", K_MOVE, NULL, 0, "2G"},
+	{"b %", "b %\n", K_BCUR, NULL, 0, ":b %\n"},
+	{"b ~", "b ~\n", K_BRENUM, NULL, 0, ":b ~\n"},
+	{"b !", "b !\n", K_BDEL, NULL, 0, "zD"},
+	{"external-change f2", "", K_EXT, "f2", 0, ""},
+	{"e f4", "e f4\n", K_E, "f4", 0, ":e f4\n"},
+	{"b 4", "b 4\n", K_BNUM, NULL, 4, ":b 4\n"},
 };
+static int vi_mode;
 #define NOPS ((int) (sizeof(ops) / sizeof(ops[0])))
 static int nops_used = NOPS;
 
@@ -261,7 +263,7 @@ static void nx_at_state(void)
 	if (state_bad)
 		return;
 	__sync_fetch_and_add(&nx_sh->hist[nmru < 15 ? nmru : 15], 1);
-	if (lbuf_len(xb))
+	if (lbuf_len(xb) && !vi_mode)
 		NX_TWIN("%p\n$=\n", -1, probe_print);
 }
 
@@ -270,7 +272,7 @@ static const char *nx_op_name(int k) { return ops[k].name; }
 static int nx_op_bytes(int k, char *buf, int max)
 {
 	(void) max;
-	strcpy(buf, ops[k].bytes);
+	strcpy(buf, vi_mode ? ops[k].vikeys : ops[k].bytes);
 	return strlen(buf);
 }
 static int nx_enabled(int k)
@@ -300,7 +302,7 @@ static unsigned long long nx_state_hash(void)
 static int nx_leaf_bytes(char *buf, int max)
 {
 	(void) max;
-	strcpy(buf, "w! out\n.=\nb\nq!\n");
+	strcpy(buf, vi_mode ? "\x1b:w! out\n:q!\n" : "w! out\n.=\nb\nq!\n");
 	return strlen(buf);
 }
 static void nx_at_exit(void)
@@ -318,7 +320,13 @@ static const char *hist_name(int i)
 
 static void run_config(int id, int depth)
 {
-	char *argv[] = {"vi", "-s", "-e", "f1", NULL};
+	char *argv_ex[] = {"vi", "-s", "-e", "f1", NULL};
+	char *argv_vi[] = {"vi", "-v", "f1", NULL};
+	char **argv = id == 2 ? argv_vi : argv_ex;
+	vi_mode = id == 2;
+	nx_trace_stdout = !vi_mode;
+	setenv("LINES", "24", 1);
+	setenv("COLUMNS", "60", 1);
 	cfg_id = id;
 	vfs_n = 0;
 	vfs_clock = 1000;
@@ -327,11 +335,11 @@ static void run_config(int id, int depth)
 	vfs_put("f3", "c1\n", -1);
 	if (id == 1)
 		vfs_put("f4", "d1\nd2\nd3\nd4\n", -1);
-	snprintf(cfg_name, sizeof(cfg_name), id ? "4files" : "3files");
-	nops_used = id ? NOPS : NOPS - 2;
+	snprintf(cfg_name, sizeof(cfg_name), id == 2 ? "3files/vi-keys" : id ? "4files" : "3files");
+	nops_used = id == 1 ? NOPS : NOPS - 2;
 	nx_bound = depth;
 	snprintf(nx_cfg_args, sizeof(nx_cfg_args), "cfg=%d", id);
-	nx_run(4, argv);
+	nx_run(vi_mode ? 3 : 4, argv);
 	nv_stat("configurations", 1);
 	nv_stat("distinct_nontrivial", nx_sh->distinct);
 	nx_report();
@@ -428,6 +436,7 @@ int main(int argc, char **argv)
 	}
 	run_config(0, depth);
 	run_config(1, depth - 1);
+	run_config(2, depth - 1);	/* the same operations typed in vi mode (^^ zj zk zD and : commands) */
 	run_sixteen();
 	nv_stat("max:depth", depth);
 	if (nv_shard == 0)
